@@ -52,7 +52,8 @@ def line(case, impl):
 
 def tags(case, impl, model):
     if _x(case):
-        return ["stream:extras", "extras-model:" + ("line" if impl.get("xline") else "oracle-only")] + (["extras:skipped"] if "skip" in impl else ["extras:" + k for k in impl.get("kinds", [])])
+        return ["stream:extras", "extras-model:" + ("line" if impl.get("xline") else "oracle-only")] + \
+            (["proved-fragment(xclass_round_trip_partial):" + str((model.get("out") or {}).get("inFrag"))] if impl.get("xline") else []) + (["extras:skipped"] if "skip" in impl else ["extras:" + k for k in impl.get("kinds", [])])
     return S.tags(case, impl, model)
 
 
